@@ -31,3 +31,35 @@ func HC16_specialComment() {
 		}
 	}
 }
+
+// HC16_declarationForms: the directives of a struct are those of the comment its own declaration
+// carries, whatever the form of the declaration: a plain `type T struct`, a spec inside a
+// parenthesised `type ( ... )` group (the comment stands on the spec), several structs in one group.
+func HC16_declarationForms() {
+	form := vfChoice("form", 3)
+	var src string
+	switch form {
+	case 0:
+		src = "// gomacro:SQL ADD UNIQUE(Name)\ntype A struct {\n\tId int64\n\tName string\n}\n\ntype B struct {\n\tId int64\n}\n"
+	case 1:
+		src = "type (\n\t// gomacro:SQL ADD UNIQUE(Name)\n\tA struct {\n\t\tId int64\n\t\tName string\n\t}\n\n\tB struct {\n\t\tId int64\n\t}\n)\n"
+	default:
+		src = "type (\n\tB struct {\n\t\tId int64\n\t}\n\n\t// some words\n\t// gomacro:SQL ADD UNIQUE(Name)\n\tA struct {\n\t\tId int64\n\t\tName string\n\t}\n)\n"
+	}
+	pkg := vfTypeCheck("example.com/mod/p", []string{"/m/p/p.go"}, []string{"package p\n\n" + src}, nil)
+	var ana *Analysis
+	panicked, rt, msg := vfCatch(func() { ana = NewAnalysisFromFile(pkg, "/m/p/p.go") })
+	vfObserve("outcome", msg)
+	vfAssert(!panicked && !rt, "C16/analysis-of-a-real-source-file-completes")
+	if panicked {
+		return
+	}
+	a, okA := ana.Types[pkg.Types.Scope().Lookup("A").Type()].(*Struct)
+	b, okB := ana.Types[pkg.Types.Scope().Lookup("B").Type()].(*Struct)
+	vfAssert(okA && okB, "C16/structs-are-analysed")
+	if !okA || !okB {
+		return
+	}
+	vfAssert(len(a.Comments) == 1 && a.Comments[0].Kind == CommentSQL && a.Comments[0].Content == "ADD UNIQUE(Name)", "C16/directive-is-attached-to-the-struct-whose-declaration-carries-the-comment")
+	vfAssert(len(b.Comments) == 0, "C16/directive-is-attached-to-no-other-struct")
+}
